@@ -299,6 +299,7 @@ func Run(r *ev.Run) {
 	r.RequireSetAtLeast("w_v1_files", 30)
 	r.RequireSetAtLeast("w_v1_mutations", 12)
 	r.RequireAtLeast("d_hostile_calls_checked_v1", q(100, 100))
+	r.RequireAtLeast("d_hostile_calls_through_validating_entry_points_v1", q(100, 100))
 	r.RequireAtLeast("d_hostile_calls_checked_v2_keystore", q(100, 100))
 	r.RequireAtLeast("d_hostile_calls_checked_v2_backend", q(50, 50))
 	r.RequireAtLeast("e_file_modes_checked", q(500, 10000))
